@@ -162,16 +162,7 @@ def mkFamily (gid keys rows mainImpl : T) (members : List T) : Family :=
 
 def noExB (σ : Subst) : Bool := σ.all (fun p => match p.2 with | .ex _ => false | _ => true)
 
-def boundAll (σ : Subst) (t : T) : Bool := (allParams t).all (fun n => (lookup σ n).isSome)
-
-def thetaCoversB (F : Family) (m : Member) : Bool :=
-  noExB m.θ && boundAll m.θ F.hdr && F.keys.all (fun k => boundAll m.θ k.bounded && boundAll m.θ k.tr)
-
-def keysOverHeaderB (F : Family) : Bool :=
-  noEParams F.hdr && F.keys.all (fun k =>
-    (allParams k.bounded).all (fun n => (allParams F.hdr).contains n) &&
-    (allParams k.tr).all (fun n => (allParams F.hdr).contains n) &&
-    noEParams k.bounded && noEParams k.tr)
+-- `boundAll`, `thetaCoversB`, `keysOverHeaderB`: Sem.lean (their soundness: Lemmas/Refine.lean)
 
 /-- syntactic sufficient condition for `SizedCompat`: every parameter the main impl requires to be `Sized` is
     mapped by θ to a member parameter the member requires to be `Sized`, or to a constructed (hence sized) type -/
